@@ -727,7 +727,8 @@ class Point(object):
         return not self == other
 
     def __neg__(self):
-        return Point(self.__curve, self.__x, self.__curve.p() - self.__y)
+        p = self.__curve.p()
+        return Point(self.__curve, self.__x, (p - self.__y) % p)
 
     def __add__(self, other):
         """Add one point to another point."""
@@ -815,6 +816,10 @@ class Point(object):
 
         p = self.__curve.p()
         a = self.__curve.a()
+
+        if not 2 * self.__y % p:
+            # a point with y == 0 is its own inverse
+            return INFINITY
 
         l = (
             (3 * self.__x * self.__x + a)
